@@ -313,7 +313,10 @@ class Array(Processor):
 
             # Skip redundant bits post decoding.
             if self.extensible and not ctx.is_encode:
-                ito = i + ahead * self.capacity
+                # The ahead flag (16 bits) is the opponent's capacity, skip the
+                # elements beyond our capacity by the size of a decoded element.
+                element_nbits = (ctx.i - i - 16) // self.capacity
+                ito = i + 16 + ahead * element_nbits
                 if ito >= ctx.i:
                     ctx.i = ito
 
